@@ -163,9 +163,9 @@ Proof. intros H Hx. rewrite forallb_forall in H. apply H. exact Hx. Qed.
 
 Lemma mem_str_false x l : mem_str x l = false <-> ~ In x l.
 Proof.
-  rewrite <- mem_str_In. destruct (mem_str x l); split; intro H; try reflexivity; try discriminate.
-  - exfalso. apply H. reflexivity.
-  - intro H'. discriminate.
+  split.
+  - intros H Hin. apply mem_str_In in Hin. congruence.
+  - intro H. destruct (mem_str x l) eqn:E; [|reflexivity]. exfalso. apply H. apply mem_str_In. exact E.
 Qed.
 
 Lemma nodup_str_NoDup l : nodup_str l = true <-> NoDup l.
@@ -179,9 +179,9 @@ Qed.
 
 Lemma has_key_false {A} k (l : list (str * A)) : has_key k l = false <-> ~ In k (map fst l).
 Proof.
-  rewrite <- has_key_In. destruct (has_key k l); split; intro H; try reflexivity; try discriminate.
-  - exfalso. apply H. reflexivity.
-  - intro H'. discriminate.
+  split.
+  - intros H Hin. apply has_key_In in Hin. congruence.
+  - intro H. destruct (has_key k l) eqn:E; [|reflexivity]. exfalso. apply H. apply has_key_In. exact E.
 Qed.
 
 Lemma assoc_NoDup_In {A} k (v : A) (l : list (str * A)) :
@@ -341,3 +341,223 @@ Proof.
   intro H. apply forallb_forall. intros [k x] Hin. apply dict_of_In in Hin.
   exact (forallb_In _ _ _ H Hin).
 Qed.
+
+(* ------------------------------------------------------------------------------------------ *)
+(* pair-lambda normal forms                                                                    *)
+
+Definition rk (kvs : list (key * val)) : list (str * val) :=
+  map (fun kv => (render (fst kv), snd kv)) kvs.
+
+Definition kstr (kv : str * val) : key * val := (KStr (fst kv), snd kv).
+
+Lemma map_render {B} (f : val -> B) (kvs : list (key * val)) :
+  map (fun kv : key * val => let '(k, x) := kv in (render k, f x)) kvs = map (vmap f) (rk kvs).
+Proof. unfold rk. rewrite map_map. apply map_ext. intros [k x]. reflexivity. Qed.
+
+Lemma map_field {B} (f : val -> B) (fl : list (str * val)) :
+  map (fun nv : str * val => let '(n, x) := nv in (n, f x)) fl = map (vmap f) fl.
+Proof. apply map_ext. intros [k x]. reflexivity. Qed.
+
+Lemma map_fst_vmap {A B} (g : A -> B) (l : list (str * A)) : map fst (map (vmap g) l) = map fst l.
+Proof. rewrite map_map. apply map_ext. intros [k x]. reflexivity. Qed.
+
+Lemma vmap_vmap {A B C} (g : A -> B) (h : B -> C) (l : list (str * A)) :
+  map (vmap h) (map (vmap g) l) = map (vmap (fun x => h (g x))) l.
+Proof. rewrite map_map. apply map_ext. intros [k x]. reflexivity. Qed.
+
+Lemma vmap_ext_in {A B} (g h : A -> B) (l : list (str * A)) :
+  (forall k x, In (k, x) l -> g x = h x) -> map (vmap g) l = map (vmap h) l.
+Proof.
+  intro H. apply map_ext_in. intros [k x] Hin. unfold vmap. cbn [fst snd]. rewrite (H k x Hin). reflexivity.
+Qed.
+
+Lemma embed_obj (D : list (str * json)) : embed (JObj D) = VDict (map kstr (map (vmap embed) D)).
+Proof. cbn [embed]. f_equal. rewrite map_map. apply map_ext. intros [k x]. reflexivity. Qed.
+
+Lemma rk_dict_In (kvs : list (key * val)) k x :
+  In (k, x) (dict_of (rk kvs)) -> exists k0, In (k0, x) kvs /\ render k0 = k.
+Proof.
+  intro H. apply dict_of_In in H. unfold rk in H. apply in_map_iff in H.
+  destruct H as [[k0 x0] [E Hin]]. cbn [fst snd] in E. inversion E; subst.
+  exists k0. split; [exact Hin | reflexivity].
+Qed.
+
+Lemma rk_dict_Forall (Q : val -> Prop) (kvs : list (key * val)) :
+  Forall (fun kv => Q (snd kv)) kvs -> forall k x, In (k, x) (dict_of (rk kvs)) -> Q x.
+Proof.
+  intros HF k x Hin. apply rk_dict_In in Hin. destruct Hin as [k0 [Hin _]].
+  rewrite Forall_forall in HF. exact (HF (k0, x) Hin).
+Qed.
+
+Lemma rk_dict_keys (kvs : list (key * val)) k :
+  In k (map fst (dict_of (rk kvs))) -> exists kv, In kv kvs /\ render (fst kv) = k.
+Proof.
+  intro H. apply (proj1 (dict_of_keys _ _)) in H. unfold rk in H. rewrite map_map in H. cbn [fst] in H.
+  apply in_map_iff in H. destruct H as [kv [E Hin]]. exists kv. split; [exact Hin | exact E].
+Qed.
+
+Section Ser.
+  Variable enc : bytes -> str.
+
+  Lemma serialize_dict b kvs :
+    serialize enc b (VDict kvs) = JObj (map (vmap (serialize enc b)) (dict_of (rk kvs))).
+  Proof. cbn [serialize]. rewrite map_render, dict_of_vmap. reflexivity. Qed.
+
+  Lemma serialize_data b c fl :
+    serialize enc b (VData c fl) = JObj (dict_of ((K_TYPE, JStr c) :: map (vmap (serialize enc b)) fl)).
+  Proof. cbn [serialize]. rewrite map_field. reflexivity. Qed.
+
+  Lemma canon_dict kvs : canon (VDict kvs) = VDict (map kstr (map (vmap canon) (dict_of (rk kvs)))).
+  Proof. cbn [canon]. rewrite map_render, dict_of_vmap. reflexivity. Qed.
+
+  Lemma canon_data c fl : canon (VData c fl) = VData c (map (vmap canon) fl).
+  Proof. cbn [canon]. rewrite map_field. reflexivity. Qed.
+
+  (* plain values survive an untyped position *)
+  Lemma embed_plain b : forall v, plain v = true -> embed (serialize enc b v) = canon v.
+  Proof.
+    induction v as [| | | | | | | |l IH|l IH|l IH|kvs IH|c fl IH|] using val_ind'; intro Hp;
+      try reflexivity; try discriminate Hp.
+    - cbn [plain] in Hp. cbn [serialize embed canon]. f_equal. rewrite map_map. apply map_ext_in.
+      intros x Hx. rewrite Forall_forall in IH. apply IH; [exact Hx | exact (forallb_In _ _ _ Hp Hx)].
+    - cbn [plain] in Hp. cbn [serialize embed canon]. f_equal. rewrite map_map. apply map_ext_in.
+      intros x Hx. rewrite Forall_forall in IH. apply IH; [exact Hx | exact (forallb_In _ _ _ Hp Hx)].
+    - cbn [plain] in Hp. cbn [serialize embed canon]. f_equal. rewrite map_map. apply map_ext_in.
+      intros x Hx. rewrite Forall_forall in IH. apply IH; [exact Hx | exact (forallb_In _ _ _ Hp Hx)].
+    - cbn [plain] in Hp. rewrite serialize_dict, canon_dict, embed_obj. f_equal. f_equal.
+      rewrite vmap_vmap. apply vmap_ext_in. intros k x Hin.
+      apply rk_dict_In in Hin. destruct Hin as [k0 [Hin _]].
+      rewrite Forall_forall in IH. apply (IH (k0, x) Hin). exact (forallb_In _ _ _ Hp Hin).
+  Qed.
+End Ser.
+
+(* ------------------------------------------------------------------------------------------ *)
+(* str.strip() on an already stripped string                                                   *)
+
+Lemma rev_head_last {A} (x : list A) (d : A) : x <> [] -> exists r, rev x = last x d :: r.
+Proof.
+  intro H. destruct (exists_last H) as [l' [a E]]. subst x.
+  rewrite rev_app_distr, last_last. cbn [rev app]. exists (rev l'). reflexivity.
+Qed.
+
+Lemma strip_stripped (sp : N -> bool) (y : str) : is_stripped sp y = true -> strip_with sp y = y.
+Proof.
+  unfold is_stripped, strip_with. destruct y as [|c r]; [reflexivity|].
+  intro H. apply andb_true_iff in H. destruct H as [H1 H2].
+  apply negb_true_iff in H1. apply negb_true_iff in H2.
+  cbn [dropWhile]. rewrite H1.
+  destruct (rev_head_last (c :: r) c) as [t E]; [discriminate|].
+  rewrite E. cbn [dropWhile]. rewrite H2. rewrite <- E. apply rev_involutive.
+Qed.
+
+(* ------------------------------------------------------------------------------------------ *)
+(* fields of a class                                                                            *)
+
+Lemma find_field_In k f :
+  NoDup (map f_name (c_fields k)) -> In f (c_fields k) -> find_field k (f_name f) = Some f.
+Proof.
+  unfold find_field. induction (c_fields k) as [|f0 fs IH]; cbn [map find]; intros ND Hin; [destruct Hin|].
+  inversion ND as [|? ? Hnot ND']; subst. destruct Hin as [->|Hin].
+  - rewrite str_eqb_refl. reflexivity.
+  - destruct (str_eqb (f_name f0) (f_name f)) eqn:E.
+    + apply str_eqb_eq in E. exfalso. apply Hnot. rewrite E. apply in_map. exact Hin.
+    + apply IH; assumption.
+Qed.
+
+Lemma find_field_None k n : ~ In n (map f_name (c_fields k)) -> find_field k n = None.
+Proof.
+  intro H. unfold find_field. apply find_None_forall. intros f Hf.
+  apply str_eqb_neq. intro E. apply H. rewrite <- E. apply in_map. exact Hf.
+Qed.
+
+Lemma find_field_Some k n f : find_field k n = Some f -> f_name f = n /\ In f (c_fields k).
+Proof.
+  unfold find_field. intro H. apply find_some in H. destruct H as [H1 H2].
+  apply str_eqb_eq in H2. split; assumption.
+Qed.
+
+Lemma shim_nil k keys kk old new d :
+  (forall f, In f (c_fields k) -> In (f_name f) keys) -> shim k keys kk old new d = [].
+Proof.
+  intro H. unfold shim. destruct (find_field k new) as [f|] eqn:E.
+  - apply find_field_Some in E. destruct E as [E1 E2]. specialize (H f E2). rewrite E1 in H.
+    apply mem_str_In in H. rewrite H. cbn [negb]. rewrite andb_false_r. reflexivity.
+  - destruct (str_eqb (c_name k) IMAGE_METADATA && str_eqb kk old && negb (mem_str new keys)); reflexivity.
+Qed.
+
+Lemma find_cls_Some R c k : find_cls R c = Some k -> In k R /\ c_name k = c.
+Proof.
+  unfold find_cls. intro H. apply find_some in H. destruct H as [H1 H2].
+  apply str_eqb_eq in H2. split; assumption.
+Qed.
+
+Lemma marker_bytesio : In K_BYTESIO markers. Proof. left; reflexivity. Qed.
+Lemma marker_bytes : In K_BYTES markers. Proof. right; left; reflexivity. Qed.
+Lemma marker_type : In K_TYPE markers. Proof. right; right; left; reflexivity. Qed.
+
+Lemma type_ne_bytesio : K_BYTESIO <> K_TYPE. Proof. apply str_eqb_neq. vm_compute. reflexivity. Qed.
+Lemma type_ne_bytes : K_BYTES <> K_TYPE. Proof. apply str_eqb_neq. vm_compute. reflexivity. Qed.
+
+(* ------------------------------------------------------------------------------------------ *)
+Section RT.
+  Variables (enc : bytes -> str) (dec : str -> option bytes) (isspace : N -> bool) (R : registry).
+  Hypothesis dec_enc : forall b, dec (enc b) = Some b.
+  Hypothesis Rwf : registry_wf R = true.
+
+  Notation deser' := (deser dec isspace R).
+  Notation has_type' := (has_type isspace R).
+
+  (* the body of _deserialize_dataclass *)
+  Definition dc (kvs : list (str * json)) (expected : option cls) : option val :=
+    match resolve_cls R (assoc K_TYPE kvs) expected with
+    | None => None
+    | Some None => Some (embed (JObj kvs))
+    | Some (Some c) =>
+        construct isspace c
+          (flat_map (fun kv => entries_for c (map fst kvs) (fst kv) (fun T' => deser' false (snd kv) T')) kvs)
+    end.
+
+  Lemma deser_obj top kvs T :
+    deser' top (JObj kvs) T =
+      if negb top && has_key K_BYTESIO kvs then
+        option_map (fun b => VBytesIO b 0) (b64_bytes dec (assoc K_BYTESIO kvs))
+      else if negb top && has_key K_BYTES kvs then
+        option_map VBytes (b64_bytes dec (assoc K_BYTES kvs))
+      else if top || has_key K_TYPE kvs then dc kvs None
+      else
+        match unwrap_optional T with
+        | TDict kv =>
+            option_map (fun l => VDict l)
+              (sequence (map (fun kx => option_map (fun v => (KStr (fst kx), v))
+                                          (deser' false (snd kx) (value_ty kv))) kvs))
+        | TPrim n =>
+            match find_cls R n with
+            | Some c => dc kvs (Some c)
+            | None => Some (embed (JObj kvs))
+            end
+        | _ => Some (embed (JObj kvs))
+        end.
+  Proof.
+    assert (Edc : forall expected,
+      match resolve_cls R (assoc K_TYPE kvs) expected with
+      | None => None
+      | Some None => Some (embed (JObj kvs))
+      | Some (Some c) =>
+          construct isspace c
+            (flat_map (fun kv : str * json => let '(k, x) := kv in
+                         entries_for c (map fst kvs) k (fun T' => deser' false x T')) kvs)
+      end = dc kvs expected).
+    { intro expected. unfold dc. destruct (resolve_cls R (assoc K_TYPE kvs) expected) as [[c|]|]; try reflexivity.
+      f_equal. apply flat_map_ext. intros [k x]. reflexivity. }
+    assert (Eseq : forall kv,
+      map (fun kx : str * json => let '(k, x) := kx in
+             option_map (fun v => (KStr k, v)) (deser' false x (value_ty kv))) kvs
+      = map (fun kx => option_map (fun v => (KStr (fst kx), v)) (deser' false (snd kx) (value_ty kv))) kvs).
+    { intro kv. apply map_ext. intros [k x]. reflexivity. }
+    cbn [deser]. rewrite !Edc.
+    destruct (negb top && has_key K_BYTESIO kvs); [reflexivity|].
+    destruct (negb top && has_key K_BYTES kvs); [reflexivity|].
+    destruct (top || has_key K_TYPE kvs); [reflexivity|].
+    destruct (unwrap_optional T); try reflexivity.
+    rewrite Eseq. reflexivity.
+  Qed.
